@@ -1,7 +1,7 @@
 CONSTANTS DIAG = TRUE
- DepthCost = 100
- OwnCost = 200
- OtherCost = 50
+ DepthCost <- TrDepthCost
+ OwnCost <- TrOwnCost
+ OtherCost <- TrOtherCost
 INIT TInit
 NEXT TNext
 CHECK_DEADLOCK FALSE
